@@ -3,6 +3,7 @@
 //!   implrun run <ID> --cases FILE --impl FILE        (re-run given case lines, e.g. the corpus)
 mod common;
 mod c06;
+mod c11;
 mod c19;
 
 use std::io::Write;
@@ -11,6 +12,7 @@ fn gen_all(id: &str, seed: u64, n: usize, thorough: bool) -> Vec<String> {
     match id {
         "C06" => c06::gen_cases(seed, n, thorough),
         "C19" => c19::gen_cases(seed, n, thorough),
+        "C11" => c11::gen_cases(seed, n, thorough),
         _ => panic!("unknown property {}", id),
     }
 }
@@ -19,6 +21,7 @@ fn run_line(id: &str, line: &str) -> String {
     let r = common::catch(|| match id {
         "C06" => c06::run_line(line),
         "C19" => c19::run_line(line),
+        "C11" => c11::run_line(line),
         _ => "UNKNOWN-PROPERTY".to_string(),
     });
     match r {
